@@ -178,9 +178,10 @@ func (w *recWriter) Flush() error {
 
 // replayerUnderTest is what the history runs against.
 type replayerUnderTest struct {
-	finite *sse.FiniteReplayer
-	valid  *sse.ValidReplayer
-	clock  int64
+	finite  *sse.FiniteReplayer
+	valid   *sse.ValidReplayer
+	clock   int64
+	instant time.Time // the injected clock's reading: advanced by Add, so that it may run centuries ahead (a Duration cannot)
 }
 
 func (r *replayerUnderTest) put(m *sse.Message, topics []string) (*sse.Message, error) {
@@ -393,6 +394,7 @@ func runHistory(r *replayerUnderTest, ops []replayOp, slotReport bool, fl *final
 		case 'T':
 			if r.valid != nil {
 				r.clock += op.delta
+				r.instant = r.instant.Add(time.Duration(op.delta))
 			}
 			out = "T"
 		case 'I':
@@ -482,7 +484,8 @@ func runReplayHistory(valid, slotReport, finalizers bool) Runner {
 				}
 				v.GCInterval = time.Duration(g)
 			}
-			v.Now = func() time.Time { return replayClockBase.Add(time.Duration(r.clock)) }
+			r.instant = replayClockBase
+			v.Now = func() time.Time { return r.instant }
 			r.valid = v
 		}
 		ops, ok := parseReplayOps(opsArg)
